@@ -52,7 +52,29 @@ fn run(r: &Rec) -> Ran {
                             vec![glwe_dump(&res)]
                         }
                     });
-                    (vec![vec![same]], o)
+                    // supporting evidence: measured standard deviation of the added noise vs the library's own formula
+                    let mut fl = vec![same];
+                    if code == 3001 {
+                        let (li, lo) = (h.glwe_in(), h.glwe_out());
+                        let (skpi, skpo) = (sk_prep(&m, &sk_in), sk_prep(&m, &sk_out));
+                        let mut sc = setup(m.glwe_decrypt_tmp_bytes(&li).max(m.glwe_noise_tmp_bytes(&lo)).max(m.glwe_normalize_tmp_bytes()));
+                        let mut pt_in = GLWEPlaintext::alloc_from_infos(&li);
+                        m.glwe_decrypt(&a, &mut pt_in, &skpi, sc.borrow());
+                        let mut pt_out = GLWEPlaintext::alloc_from_infos(&lo);
+                        m.glwe_normalize(&mut pt_out, &pt_in, sc.borrow());
+                        let res = glwe_from(n, h.out_b, h.out_size, h.out_rank, &o[0]);
+                        let std = m.glwe_noise(&res, &pt_out, &skpo, sc.borrow()).std();
+                        let var_xs = if kin == 1 { 0.25 } else { 0.5 };
+                        let sig2 = DEFAULT_SIGMA_XE * DEFAULT_SIGMA_XE;
+                        let rows = (h.in_size * h.in_b).div_ceil(h.key_b).div_ceil(h.dsize).min(h.dnum);
+                        let mut var = var_noise_gglwe_product_v2(n as f64, h.key_k, rows, h.dsize, h.key_b, var_xs, 0.0, 0.0, sig2, 0.0, h.key_rin as f64);
+                        // rounding of the result to its own precision (not part of the library formula)
+                        let vso = if kout == 1 { 0.5 } else { 0.5 };
+                        var += (1.0 + (h.out_rank * n) as f64 * vso) * (-2.0 * (h.out_size * h.out_b) as f64).exp2() / 12.0;
+                        let full = (rows * h.dsize * h.key_b >= h.in_size * h.in_b) && h.dsize <= 2 && class <= 1;
+                        fl.extend([(1000.0 * std.max(1e-300).log2()) as i128, (1000.0 * var.sqrt().log2()) as i128, full as i128]);
+                    }
+                    (vec![fl], o)
                 }))
             }
             3003 | 3004 => {
@@ -346,7 +368,8 @@ fn run(r: &Rec) -> Ran {
     })
 }
 
-pub fn exec(r: &Rec) -> Ran { run(r) }
+fn has_flags(c: i64) -> bool { !matches!(c, 3042 | 3050 | 3090) }
+pub fn exec(r: &Rec) -> Ran { exec_xbe(r, run, has_flags) }
 
 /// a gadget shape for an input of `in_size` limbs of radix `in_b`: (key_b, dsize, dnum, key_size, key_k)
 fn shape(rng: &mut Rng, fft: bool, in_b: usize, in_size: usize, max_dsize: usize) -> (usize, usize, usize, usize, usize) {
@@ -478,7 +501,7 @@ pub fn generate(tier: &str, seed: u64) -> Vec<Rec> {
     for it in 0..10 * scale {
         let mut h = base(&mut rng, it, 3, false);
         let fft = h.be <= 2;
-        h.in_size = h.in_size.max(2);
+        h.in_size = h.in_size.max(2).max(16usize.div_ceil(h.in_b));
         let k_pt = 5usize;
         let gn = 6usize;
         let mut extra = vec![0, kinds(&mut rng), 0, k_pt as i128, gn as i128];
@@ -487,9 +510,10 @@ pub fn generate(tier: &str, seed: u64) -> Vec<Rec> {
             // enough rows for the whole input and two guard limbs so that the message survives: the plaintext must not depend on the shape
             let a_conv = (h.in_size * h.in_b).div_ceil(key_b);
             let dnum = a_conv.div_ceil(dsize) + rng.below(2) as usize;
-            let key_size = (dnum * dsize + 1).max(dsize + 1);
+            // the gadget noise ~ rows*rank*N*2^(dsize*b)*20*2^-k_key must stay below the message: k_key >= dsize*b + 26
+            let key_size = (dnum * dsize + 1).max(dsize + 1).max((dsize * key_b + 26).div_ceil(key_b));
             let out_b = pick_b(&mut rng, fft, key_b);
-            let out_size = (h.in_size * h.in_b).div_ceil(out_b) + rng.below(2) as usize;
+            let out_size = (h.in_size * h.in_b).max(12).div_ceil(out_b) + rng.below(2) as usize;
             extra.extend([key_b as i128, dsize as i128, dnum as i128, key_size as i128, out_b as i128, out_size as i128]);
         }
         out.push(mk(3050, &h, extra));
